@@ -1,5 +1,666 @@
-"""placeholder while the static part is being built"""
+"""Stage G of C20: a fail-closed Python-ast translator from /repo/pysensors/**.py to the effect IR of coq/theories/Eff/IR.v.
+Re-run on every check; the generated Coq file is compiled and `history_safe prog entries n = true` is decided by vm_compute.
+Anything the translator cannot classify raises TranslationError (the check then reports the obligation as not discharged).
+The tables classifying numpy / scipy / sklearn / pandas / builtin callees are trusted (and validated by the dynamic part).
+
+Abstraction.  Every local name is a variable.  Object attributes are GLOBAL variables, one per attribute name whatever
+object carries it (field-based): `self.x`, `self.basis.x`, `model.x` all read/write the global `self.x`.  Globals a
+function (transitively) touches are passed to it as trailing parameters and handed back as out-variables.  Subscripts,
+views (.T, .real, reshape, squeeze, ...) and containers alias their base; copies, arithmetic and constructors are fresh;
+element / slice assignment, augmented assignment and mutating methods write their base in place."""
+import ast
+import os
+
+from . import common as C
+
+MODULES = ["optimizers/_qr.py", "optimizers/_ccqr.py", "optimizers/_gqr.py", "utils/_norm_calc.py", "utils/_base.py", "utils/_validation.py",
+           "utils/_optimizers.py", "basis/_base.py", "basis/_identity.py", "basis/_svd.py", "basis/_random_projection.py", "basis/_custom.py",
+           "reconstruction/_sspor.py", "classification/_sspoc.py", "utils/_constraints.py"]
+SKIP_PREFIX = ("draw", "plot", "annotate", "sensors_dataframe")        # plotting code: no property concerns it
+
+
+class TranslationError(Exception):
+    pass
+
+
+# external callees: result is "fresh" (new object) or "alias" (may be a view of / the same object as some argument or the
+# receiver); "write" = mutates the receiver in place.  None of the others mutates an argument.
+FRESH_FUNCS = {
+    "len", "range", "int", "float", "abs", "min", "max", "isinstance", "hasattr", "type", "set", "sorted", "zip", "enumerate", "list", "tuple", "str",
+    "super", "eval", "__import__", "ValueError", "Exception", "NotImplementedError", "NotFittedError", "TypeError", "format",
+    "ndim", "identity", "pinv", "qr", "solve", "lstsq", "lil_matrix", "warn", "DummyClassifier", "LinearDiscriminantAnalysis", "MultiTaskLasso",
+    "OrthogonalMatchingPursuit", "check_is_fitted",
+}
+ALIAS_FUNCS = {"check_array", "getattr"}          # may hand back (a view of) an argument
+NP_FRESH = {"abs", "arange", "argmax", "argsort", "array", "cos", "sin", "count_nonzero", "dot", "isin", "issubdtype", "logical_not", "matmul", "mean", "ndim",
+            "nonzero", "outer", "ravel_multi_index", "shape", "sign", "sqrt", "stack", "sum", "unravel_index", "where", "zeros", "zeros_like", "max", "min",
+            "median", "eye", "ones", "copy", "concatenate"}
+NP_ALIAS = {"squeeze", "transpose", "asarray", "ascontiguousarray", "asfortranarray", "atleast_2d", "ravel", "reshape", "asanyarray"}
+METHOD_FRESH = {"copy", "tolist", "any", "all", "sum", "max", "min", "mean", "format", "lower", "keys", "items", "isnull", "issubset", "basename", "dirname",
+                "expanduser", "splitext", "default_rng", "permutation", "norm", "det", "transform", "predict", "catch_warnings", "filterwarnings", "warn",
+                "astype", "dot", "strip", "split", "join", "startswith", "endswith", "count", "index"}
+METHOD_ALIAS = {"conj", "reshape", "to_numpy", "get", "fit", "squeeze", "ravel", "view", "transpose", "values", "dropna"}   # dropna(inplace=...) is rejected below
+METHOD_WRITE = {"append", "insert", "extend", "sort", "fill", "setflags", "update", "setdefault", "pop", "remove", "clear", "resize", "put", "itemset"}
+VIEW_ATTRS = {"T", "real", "imag", "values", "flat", "loc", "iloc", "path"}
+SCALAR_ATTRS = {"shape", "ndim", "dtype", "size", "pi", "integer", "int64", "int32", "int16", "int8", "float64", "linalg", "random", "ndarray", "DataFrame",
+                "newaxis", "nan", "inf"}
+# helpers whose in-place contract is part of the internal design (their callers hand them freshly computed arrays): they
+# are analysed like every other function, but are not public entry points
+INTERNAL_HELPERS = {"unconstrained", "exact_n", "max_n", "predetermined", "qr_reflector", "returnInstance"}
+# attributes / names that hold pysensors objects of a known family (any other receiver is classified by the external tables)
+RECEIVER_KIND = {"optimizer": "optimizers/", "basis": "basis/"}
+NORM_CALC = ["unconstrained", "exact_n", "max_n", "predetermined"]
+IN_PLACE_SWITCHES = ("overwrite_", "inplace", "copy_X")
+
+
+class Fn:
+    def __init__(self, qual, name, cls, node, module):
+        self.qual, self.name, self.cls, self.node, self.module = qual, name, cls, node, module
+        self.body, self.rets = [], []
+        self.vars = {}
+        self.globals = set()          # names of the global variables ("self", "self.x") touched, transitively
+        self.callees = set()
+        self.cyclic = set()
+
+
+class Translator:
+    def __init__(self, repo):
+        self.repo = repo
+        self.fns = {}            # qual -> Fn
+        self.by_name = {}        # simple name -> [qual]
+        self.classes = {}        # class name -> {attr names assigned in __init__}
+        self.renames = {}        # module -> {local alias: imported name}
+        self.bases, self.class_module = {}, {}
+        self.getters, self.setters = {}, {}      # property name -> [qual]
+
+    # ------------------------------------------------------------ collection
+    def load(self):
+        for m in MODULES:
+            path = os.path.join(self.repo, "pysensors", m)
+            tree = ast.parse(open(path).read(), filename=path)
+            self.renames[m] = {a.asname: a.name for node in ast.walk(tree) if isinstance(node, ast.ImportFrom) for a in node.names if a.asname}
+            for node in tree.body:
+                if isinstance(node, ast.FunctionDef):
+                    if node.decorator_list:
+                        raise TranslationError(f"{node.name}: decorators are not handled")
+                    if not node.name.startswith(SKIP_PREFIX):
+                        self.add_fn(node.name, node.name, None, node, m)
+                elif isinstance(node, ast.ClassDef):
+                    self.classes.setdefault(node.name, set())
+                    self.bases[node.name] = [b.id if isinstance(b, ast.Name) else getattr(b, "attr", "?") for b in node.bases]
+                    self.class_module[node.name] = m
+                    for sub in node.body:
+                        if isinstance(sub, ast.FunctionDef) and not sub.name.startswith(SKIP_PREFIX):
+                            decos = [ast.unparse(d) for d in sub.decorator_list]
+                            if decos == ["property"]:
+                                self.add_fn(f"{node.name}.{sub.name}", sub.name, node.name, sub, m, table=self.getters)
+                            elif decos == [sub.name + ".setter"]:
+                                self.add_fn(f"{node.name}.{sub.name}.setter", sub.name, node.name, sub, m, table=self.setters)
+                            elif decos == ["abstractmethod"]:
+                                self.add_fn(f"{node.name}.{sub.name}", sub.name, node.name, sub, m)
+                            elif decos:
+                                raise TranslationError(f"{node.name}.{sub.name}: decorator {decos} is not handled")
+                            else:
+                                self.add_fn(f"{node.name}.{sub.name}", sub.name, node.name, sub, m)
+        for f in list(self.fns.values()):
+            for sub in ast.walk(f.node):
+                if isinstance(sub, ast.FunctionDef) and sub is not f.node:
+                    self.add_fn(f"{f.qual}.<{sub.name}>", sub.name, f.cls, sub, f.module)
+
+    def add_fn(self, qual, name, cls, node, module, table=None):
+        if qual in self.fns:
+            raise TranslationError(f"two definitions of {qual}")
+        self.fns[qual] = Fn(qual, name, cls, node, module)
+        (self.by_name if table is None else table).setdefault(name, []).append(qual)
+
+    # ------------------------------------------------------------ per-function translation
+    def var(self, f, name):
+        if name == "self" or name.startswith("self."):
+            f.globals.add(name)
+        if name not in f.vars:
+            f.vars[name] = len(f.vars)
+        return f.vars[name]
+
+    def attr(self, f, name):
+        return self.var(f, "self." + name)
+
+    def tmp(self, f):
+        return self.var(f, f"%t{len(f.vars)}")
+
+    def fresh(self, f):
+        t = self.tmp(f)
+        f.body.append(("fresh", t))
+        return t
+
+    def alias_of(self, f, srcs):
+        t = self.tmp(f)
+        f.body.append(("fresh", t))
+        for s in srcs:
+            f.body.append(("alias", t, s))
+        return t
+
+    def expr(self, f, e):
+        """translate an expression; returns the variable holding (an over-approximation of) what the value may alias"""
+        if e is None:
+            return self.fresh(f)
+        if isinstance(e, ast.Name):
+            return self.var(f, e.id)
+        if isinstance(e, ast.Constant):
+            if isinstance(e.value, str) and any(sw in e.value for sw in IN_PLACE_SWITCHES):
+                raise TranslationError(f"{f.qual}: string literal {e.value!r} (an in-place switch of an external routine may be set dynamically)")
+            return self.fresh(f)
+        if isinstance(e, ast.Attribute):
+            base = self.expr(f, e.value)
+            if e.attr in SCALAR_ATTRS:
+                return self.fresh(f)
+            if e.attr in VIEW_ATTRS:
+                return self.alias_of(f, [base, self.attr(f, e.attr)])      # a view of the object (or a plain attribute of that name)
+            if e.attr in self.getters:               # a property of some pysensors class: reading it may run its getter
+                d = self.user_call(f, self.getters[e.attr], [], [], {})
+                return self.alias_of(f, [self.attr(f, e.attr), d])
+            return self.attr(f, e.attr)              # field-based: the global variable of that attribute name
+        if isinstance(e, ast.Subscript):
+            base = self.expr(f, e.value)
+            self.expr(f, e.slice)
+            return self.alias_of(f, [base])          # basic slicing gives a view; fancy indexing a copy: alias is the safe answer
+        if isinstance(e, ast.Slice):
+            for x in (e.lower, e.upper, e.step):
+                if x is not None:
+                    self.expr(f, x)
+            return self.fresh(f)
+        if isinstance(e, (ast.Tuple, ast.List, ast.Set)):
+            return self.alias_of(f, [self.expr(f, x) for x in e.elts])
+        if isinstance(e, ast.Dict):
+            return self.alias_of(f, [self.expr(f, x) for x in list(e.keys) + list(e.values) if x is not None])
+        if isinstance(e, ast.Starred):
+            return self.expr(f, e.value)
+        if isinstance(e, ast.BinOp):
+            self.expr(f, e.left), self.expr(f, e.right)
+            return self.fresh(f)
+        if isinstance(e, ast.UnaryOp):
+            self.expr(f, e.operand)
+            return self.fresh(f)
+        if isinstance(e, ast.BoolOp):
+            return self.alias_of(f, [self.expr(f, x) for x in e.values])      # `a or b` returns one of its operands
+        if isinstance(e, ast.Compare):
+            self.expr(f, e.left)
+            for x in e.comparators:
+                self.expr(f, x)
+            return self.fresh(f)
+        if isinstance(e, ast.IfExp):
+            self.expr(f, e.test)
+            return self.alias_of(f, [self.expr(f, e.body), self.expr(f, e.orelse)])
+        if isinstance(e, ast.JoinedStr):
+            for x in e.values:
+                if isinstance(x, ast.FormattedValue):
+                    self.expr(f, x.value)
+            return self.fresh(f)
+        if isinstance(e, ast.ListComp):
+            for g in e.generators:
+                it = self.expr(f, g.iter)
+                self.assign_target(f, g.target, it)
+                for c in g.ifs:
+                    self.expr(f, c)
+            return self.alias_of(f, [self.expr(f, e.elt)])
+        if isinstance(e, ast.Lambda):
+            return self.fresh(f)
+        if isinstance(e, ast.Call):
+            return self.call(f, e)
+        raise TranslationError(f"{f.qual}: expression {type(e).__name__} at line {getattr(e, 'lineno', '?')} is not handled")
+
+    def call(self, f, e):
+        pos, star, kw = [], [], {}
+        for a in e.args:
+            if isinstance(a, ast.Starred):
+                star.append(("*", self.expr(f, a.value)))
+            else:
+                pos.append(self.expr(f, a))
+        for k in e.keywords:
+            v = self.expr(f, k.value)
+            if k.arg is None:
+                star.append(("**", v))
+            else:
+                if any(sw in k.arg for sw in IN_PLACE_SWITCHES) and not (isinstance(k.value, ast.Constant) and k.value.value is False):
+                    raise TranslationError(f"{f.qual}: keyword {k.arg}= at line {e.lineno} may switch an external routine to in-place operation")
+                kw[k.arg] = v
+        args = pos + [a for _, a in star] + list(kw.values())
+        fn = e.func
+        recv = None
+        if isinstance(fn, ast.Name):
+            name = self.renames.get(f.module, {}).get(fn.id, fn.id)
+        elif isinstance(fn, ast.Attribute):
+            name = fn.attr
+            if isinstance(fn.value, ast.Call) and isinstance(fn.value.func, ast.Name) and fn.value.func.id == "super":
+                recv = self.var(f, "self")            # super().m(...): the sklearn base class
+                if name == "__init__":
+                    return self.fresh(f)
+                if name == "fit":
+                    return self.alias_of(f, [recv])
+                if name == "transform":
+                    return self.fresh(f)
+                raise TranslationError(f"{f.qual}: super().{name} is not classified")
+            recv = self.expr(f, fn.value)
+        else:
+            raise TranslationError(f"{f.qual}: call of {type(fn).__name__} at line {e.lineno}")
+        is_np = isinstance(fn, ast.Attribute) and isinstance(fn.value, ast.Name) and fn.value.id in ("np", "numpy")
+        if is_np:
+            if name in NP_FRESH:
+                return self.fresh(f)
+            if name in NP_ALIAS:
+                return self.alias_of(f, args)
+            raise TranslationError(f"{f.qual}: numpy.{name} is not classified (line {e.lineno})")
+        if isinstance(fn, ast.Name) and name == "setattr":
+            targets = [a for a in self.classes.get(f.cls, set()) if not a.endswith("_")]     # keyword names are the documented settings
+            if not targets:
+                raise TranslationError(f"{f.qual}: setattr on a class without known settings")
+            for a in sorted(targets):
+                f.body.append(("alias", self.attr(f, a), args[-1]))
+            return self.fresh(f)
+        if isinstance(fn, ast.Attribute) and isinstance(fn.value, ast.Name) and fn.value.id == "self" and name == "_norm_calc_Instance":
+            return self.user_call(f, [q for n in NORM_CALC for q in self.by_name.get(n, [])], pos, star, kw)
+        if isinstance(fn, ast.Name):
+            if name in self.classes:                      # constructor of a pysensors class
+                cands = [q for q in self.by_name.get("__init__", []) if q.startswith(name + ".")]
+                if not cands:
+                    return self.fresh(f)
+            else:
+                cands = [q for q in self.by_name.get(name, []) if self.fns[q].cls is None or "<" in q]
+        else:
+            cands = self.method_candidates(f, fn.value, name)
+        if cands:
+            return self.user_call(f, cands, pos, star, kw)
+        # external callees
+        if isinstance(fn, ast.Name):
+            if name in FRESH_FUNCS or name in f.vars:      # a local callable is a user-supplied function (score, method, func): trusted not to mutate
+                return self.fresh(f)
+            if name in ALIAS_FUNCS:
+                if name == "getattr":
+                    return self.alias_of(f, args + [self.attr(f, a) for a in sorted(self.classes.get(f.cls, set()))])
+                return self.alias_of(f, args)
+            raise TranslationError(f"{f.qual}: external function {name} is not classified (line {e.lineno})")
+        if name in METHOD_WRITE:
+            f.body.append(("write", recv))
+            f.body += [("alias", recv, a) for a in args]
+            return self.alias_of(f, [recv] + args)
+        if name in METHOD_FRESH:
+            return self.fresh(f)
+        if name in METHOD_ALIAS:
+            return self.alias_of(f, [recv] + (args if name == "get" else []))
+        raise TranslationError(f"{f.qual}: method .{name}() is not classified (line {e.lineno})")
+
+    def family(self, cls):
+        fam, changed = {cls}, True
+        while changed:
+            changed = False
+            for c, bs in self.bases.items():
+                if c in fam and any(b in self.classes and b not in fam for b in bs):
+                    fam |= {b for b in bs if b in self.classes}
+                    changed = True
+                if c not in fam and any(b in fam for b in bs):
+                    fam.add(c)
+                    changed = True
+        return fam
+
+    def receiver_kind(self, e):
+        """which pysensors classes the receiver of a method call may be an instance of (None = not a pysensors object)"""
+        if isinstance(e, ast.Name) and e.id == "self":
+            return "self"
+        if isinstance(e, ast.Attribute) and isinstance(e.value, ast.Name) and e.value.id == "self" and e.attr in RECEIVER_KIND:
+            return RECEIVER_KIND[e.attr]
+        if isinstance(e, ast.Name) and e.id in RECEIVER_KIND:
+            return RECEIVER_KIND[e.id]
+        if isinstance(e, ast.Call) and isinstance(e.func, ast.Attribute) and e.func.attr == "fit":
+            return self.receiver_kind(e.func.value)          # fit returns self
+        return None
+
+    def method_candidates(self, f, recv_expr, name):
+        kind = self.receiver_kind(recv_expr)
+        if kind == "self":
+            fam = self.family(f.cls) if f.cls else set()
+            return [q for q in self.by_name.get(name, []) if self.fns[q].cls in fam and "<" not in q]
+        if kind is not None:
+            return [q for q in self.by_name.get(name, []) if self.fns[q].cls and self.class_module[self.fns[q].cls].startswith(kind) and "<" not in q]
+        if name in METHOD_FRESH or name in METHOD_ALIAS or name in METHOD_WRITE:
+            return []                                        # receiver is not a pysensors object: classified by the external tables
+        return [q for q in self.by_name.get(name, []) if self.fns[q].cls and "<" not in q]     # unknown receiver: every method of that name
+
+    def user_call(self, f, cands, pos, star, kw):
+        d = self.tmp(f)
+        f.body.append(("fresh", d))
+        for q in cands:
+            f.callees.add(q)
+            f.body.append(("call", q, list(pos), list(star), dict(kw), d))
+        return d
+
+    def assign_target(self, f, t, v):
+        if isinstance(t, ast.Name):
+            f.body.append(("alias", self.var(f, t.id), v))
+        elif isinstance(t, (ast.Tuple, ast.List)):
+            for x in t.elts:
+                self.assign_target(f, x, v)
+        elif isinstance(t, ast.Starred):
+            self.assign_target(f, t.value, v)
+        elif isinstance(t, ast.Attribute):
+            self.expr(f, t.value)
+            if (t.attr in VIEW_ATTRS or t.attr in SCALAR_ATTRS) and not (isinstance(t.value, ast.Name) and t.value.id == "self"):
+                raise TranslationError(f"{f.qual}: assignment to the view attribute .{t.attr}")
+            f.body.append(("alias", self.attr(f, t.attr), v))      # field-based
+            if t.attr in self.setters:                # a property with a setter
+                self.user_call(f, self.setters[t.attr], [v], [], {})
+        elif isinstance(t, ast.Subscript):
+            base = self.expr(f, t.value)
+            self.expr(f, t.slice)
+            f.body.append(("write", base))            # element / slice assignment mutates the container in place
+            f.body.append(("alias", base, v))
+        else:
+            raise TranslationError(f"{f.qual}: assignment target {type(t).__name__}")
+
+    def stmts(self, f, body):
+        for s in body:
+            if isinstance(s, ast.Expr):
+                self.expr(f, s.value)
+            elif isinstance(s, ast.Assign):
+                v = self.expr(f, s.value)
+                for t in s.targets:
+                    self.assign_target(f, t, v)
+            elif isinstance(s, ast.AnnAssign):
+                if s.value is not None:
+                    self.assign_target(f, s.target, self.expr(f, s.value))
+            elif isinstance(s, ast.AugAssign):
+                self.expr(f, s.value)
+                if isinstance(s.target, ast.Name):
+                    f.body.append(("write", self.var(f, s.target.id)))       # x op= y may work in place on an array
+                elif isinstance(s.target, ast.Subscript):
+                    f.body.append(("write", self.expr(f, s.target.value)))
+                elif isinstance(s.target, ast.Attribute):
+                    f.body.append(("write", self.expr(f, s.target)))
+                else:
+                    raise TranslationError(f"{f.qual}: augmented assignment to {type(s.target).__name__}")
+            elif isinstance(s, ast.Return):
+                f.rets.append(self.expr(f, s.value))
+            elif isinstance(s, ast.If):
+                self.expr(f, s.test)
+                self.stmts(f, s.body)
+                self.stmts(f, s.orelse)
+            elif isinstance(s, ast.For):
+                it = self.expr(f, s.iter)
+                self.assign_target(f, s.target, it)
+                self.stmts(f, s.body)
+                self.stmts(f, s.orelse)
+            elif isinstance(s, ast.While):
+                self.expr(f, s.test)
+                self.stmts(f, s.body)
+                self.stmts(f, s.orelse)
+            elif isinstance(s, ast.With):
+                for it in s.items:
+                    v = self.expr(f, it.context_expr)
+                    if it.optional_vars is not None:
+                        self.assign_target(f, it.optional_vars, v)
+                self.stmts(f, s.body)
+            elif isinstance(s, ast.Try):
+                self.stmts(f, s.body)
+                for h in s.handlers:
+                    self.stmts(f, h.body)
+                self.stmts(f, s.orelse)
+                self.stmts(f, s.finalbody)
+            elif isinstance(s, ast.Raise):
+                if s.exc is not None:
+                    self.expr(f, s.exc)
+            elif isinstance(s, ast.Assert):
+                self.expr(f, s.test)
+            elif isinstance(s, (ast.Pass, ast.Import, ast.ImportFrom, ast.Break, ast.Continue)):
+                pass
+            elif isinstance(s, ast.FunctionDef):
+                f.body.append(("fresh", self.var(f, s.name)))    # nested function: translated separately, resolved by name
+            else:
+                raise TranslationError(f"{f.qual}: statement {type(s).__name__} at line {s.lineno} is not handled")
+
+    def translate_fn(self, f):
+        a = f.node.args
+        pos = [x.arg for x in a.posonlyargs + a.args]
+        f.is_method = bool(f.cls) and "<" not in f.qual and pos[:1] == ["self"]
+        if f.is_method:
+            pos = pos[1:]
+            self.var(f, "self")
+        f.pos = pos
+        f.vararg = a.vararg.arg if a.vararg else None
+        f.kwonly = [x.arg for x in a.kwonlyargs]
+        f.kwarg = a.kwarg.arg if a.kwarg else None
+        f.explicit = pos + ([f.vararg] if f.vararg else []) + f.kwonly + ([f.kwarg] if f.kwarg else [])
+        for n in f.explicit:
+            self.var(f, n)
+        for dflt in a.defaults + [d for d in a.kw_defaults if d is not None]:
+            self.expr(f, dflt)
+        self.stmts(f, f.node.body)
+
+    def run(self):
+        self.load()
+        for f in self.fns.values():          # attributes assigned in __init__ = the settings of a class
+            if f.name == "__init__" and f.cls:
+                for n in ast.walk(f.node):
+                    if isinstance(n, ast.Attribute) and isinstance(n.ctx, ast.Store) and isinstance(n.value, ast.Name) and n.value.id == "self":
+                        self.classes[f.cls].add(n.attr)
+        for f in self.fns.values():
+            self.translate_fn(f)
+        changed = True                        # globals a function touches, transitively through its callees
+        while changed:
+            changed = False
+            for f in self.fns.values():
+                for q in f.callees:
+                    new = self.fns[q].globals - f.globals
+                    if new:
+                        f.globals |= new
+                        changed = True
+        order, state = [], {}                 # topological order (callees first)
+
+        def visit(q):
+            state[q] = 1
+            for c in sorted(self.fns[q].callees):
+                if state.get(c) == 1:
+                    self.fns[q].cyclic.add(c)
+                elif c not in state:
+                    visit(c)
+            state[q] = 2
+            order.append(q)
+        for q in sorted(self.fns):
+            if q not in state:
+                visit(q)
+        self.order = order
+        self.index = {q: i for i, q in enumerate(order)}
+        self.all_globals = sorted({g for f in self.fns.values() for g in f.globals})
+        self.gid = {g: i for i, g in enumerate(self.all_globals)}
+        return self
+
+    # ------------------------------------------------------------ emission
+    def globals_of(self, f):
+        return sorted(f.globals)
+
+    def params_of(self, f):
+        return list(f.explicit) + self.globals_of(f)
+
+    def emit_call(self, f, body, s):
+        _, cq, pos, star, kw, d = s
+        g = self.fns[cq]
+        if cq in f.cyclic or self.index[cq] >= self.index[f.qual]:
+            for a in pos + [a for _, a in star] + list(kw.values()) + [self.var(f, x) for x in self.globals_of(g)]:      # recursion: most pessimistic effect
+                body.append(f"SWrite {a}")
+                body.append(f"SAlias {d} {a}")
+                for x in self.globals_of(g):
+                    body.append(f"SAlias {self.var(f, x)} {a}")
+            return
+        src = {p: [] for p in g.explicit}
+        for i, a in enumerate(pos):
+            if i < len(g.pos):
+                src[g.pos[i]].append(a)
+            elif g.vararg:
+                src[g.vararg].append(a)
+            else:
+                for p in g.explicit:
+                    src[p].append(a)
+        for k, a in kw.items():
+            if k in src and k not in (g.vararg, g.kwarg):
+                src[k].append(a)
+            elif g.kwarg:
+                src[g.kwarg].append(a)
+            else:
+                for p in g.explicit:
+                    src[p].append(a)
+        for kind, a in star:
+            if kind == "*":                             # *seq: its items fill the positional parameters that are left, and *args
+                for p in g.pos[len(pos):] + ([g.vararg] if g.vararg else []):
+                    src[p].append(a)
+            else:                                       # **mapping: its items fill named parameters not bound otherwise, and **kwargs
+                for p in g.pos[len(pos):] + g.kwonly + ([g.kwarg] if g.kwarg else []):
+                    if p not in kw:
+                        src[p].append(a)
+        vals = []
+        for p in g.explicit:
+            if len(src[p]) == 1:
+                vals.append(src[p][0])
+            else:
+                t = self.tmp(f)
+                body.append(f"SFresh {t}")
+                body += [f"SAlias {t} {a}" for a in src[p]]
+                vals.append(t)
+        gl = [self.var(f, x) for x in self.globals_of(g)]
+        body.append(f"SCall {self.index[cq]} [{'; '.join(map(str, vals + gl))}] {d} [{'; '.join(map(str, gl))}]")
+
+    def emit(self):
+        lines = ["(* GENERATED by harness/effects.py from /repo on every run - do not edit *)",
+                 "From Coq Require Import List Arith Bool. Import ListNotations.", "From PS Require Import Eff.IR Eff.History.", ""]
+        for q in self.order:
+            f = self.fns[q]
+            body = []
+            for s in f.body:
+                if s[0] == "alias":
+                    body.append(f"SAlias {s[1]} {s[2]}")
+                elif s[0] == "fresh":
+                    body.append(f"SFresh {s[1]}")
+                elif s[0] == "write":
+                    body.append(f"SWrite {s[1]}")
+                else:
+                    self.emit_call(f, body, s)
+            params = self.params_of(f)
+            pids = [self.var(f, p) for p in params]
+            outs = [self.var(f, p) for p in self.globals_of(f)]
+            lines.append(f"(* {q}  [{f.module}]  params: {', '.join(params)} *)")
+            lines.append(f"Definition fn_{self.index[q]} : func := {{| f_params := [{'; '.join(map(str, pids))}]; f_body := [{'; '.join(body)}]; "
+                         f"f_rets := [{'; '.join(map(str, f.rets))}]; f_outs := [{'; '.join(map(str, outs))}] |}}.")
+        lines.append("")
+        lines.append("Definition prog : program := [" + "; ".join("fn_%d" % i for i in range(len(self.order))) + "].")
+        ents = []
+        for q in self.entries():
+            f = self.fns[q]
+            ents.append(f"{{| e_fn := {self.index[q]}; e_nexp := {len(f.explicit)}; e_fields := [{'; '.join(str(self.gid[g]) for g in self.globals_of(f))}] |}}")
+        lines.append("Definition entries : list entry := [\n  " + ";\n  ".join(ents) + "\n].")
+        lines.append(f"Definition nglobals : nat := {len(self.all_globals)}.")
+        return "\n".join(lines) + "\n"
+
+    def entries(self):
+        """public entry points: every function or method whose name is public (or a constructor), except the internal helpers"""
+        return [q for q in self.order if "<" not in q and (not self.fns[q].name.startswith("_") or self.fns[q].name == "__init__")
+                and self.fns[q].name not in INTERNAL_HELPERS]
+
+    # ------------------------------------------------------------ explanation of a failed obligation (python mirror, diagnostics only)
+    def explain(self, q, pname, depth=0, seen=frozenset()):
+        f = self.fns[q]
+        if pname not in f.vars:
+            return []
+        inv = {v: k for k, v in f.vars.items()}
+        parent = {f.vars[pname]: None}
+        changed = True
+        while changed:
+            changed = False
+            for s in f.body:
+                if s[0] == "alias" and s[2] in parent and s[1] not in parent:
+                    parent[s[1]] = s[2]
+                    changed = True
+                elif s[0] == "call":
+                    used = [a for a in s[2] + [a for _, a in s[3]] + list(s[4].values()) if a in parent]
+                    if used and s[5] not in parent:
+                        parent[s[5]] = used[0]          # coarse: the result may alias an argument
+                        changed = True
+
+        def chain(v):
+            out = []
+            while v is not None and len(out) < 12:
+                out.append(inv.get(v, str(v)))
+                v = parent[v]
+            return " <- ".join(x for x in out if not x.startswith("%t")) or "?"
+        lines = []
+        for s in f.body:
+            if s[0] == "write" and s[1] in parent:
+                lines.append("  " * depth + f"{q}: in-place write to {chain(s[1])}")
+            elif s[0] == "call" and (q, s[1]) not in seen and depth < 5:
+                g = self.fns[s[1]]
+                for i, a in enumerate(s[2]):
+                    if a in parent and i < len(g.pos):
+                        sub = self.explain(s[1], g.pos[i], depth + 1, seen | {(q, s[1])})
+                        if sub:
+                            lines.append("  " * depth + f"{q}: passes {chain(a)} to {s[1]}({g.pos[i]})")
+                            lines += sub
+                for k, a in s[4].items():
+                    if a in parent and k in g.explicit:
+                        sub = self.explain(s[1], k, depth + 1, seen | {(q, s[1])})
+                        if sub:
+                            lines.append("  " * depth + f"{q}: passes {chain(a)} to {s[1]}({k}=)")
+                            lines += sub
+                for gname in self.globals_of(g):
+                    if gname != "self" and gname in f.vars and f.vars[gname] in parent:
+                        sub = self.explain(s[1], gname, depth + 1, seen | {(q, s[1])})
+                        if sub:
+                            lines.append("  " * depth + f"{q}: {chain(f.vars[gname])} is visible to {s[1]}")
+                            lines += sub
+        return list(dict.fromkeys(lines))[:14]
 
 
 def static_part(chk):
-    chk.count("static-part-not-built-yet")
+    try:
+        tr = Translator(C.REPO).run()
+        src = tr.emit()
+    except TranslationError as e:
+        chk.violation("proof", "translator-fail-closed", f"stage G: the translator cannot classify a construct of the current source: {e}", {"error": str(e)})
+        chk.extra["static"] = {"error": str(e)}
+        return
+    ents = tr.entries()
+    body = (src + "\nEval vm_compute in history_safe_fast prog entries nglobals.\n"
+            "Eval vm_compute in tainted_with (summaries_fast prog) entries nglobals.\n"
+            "Eval vm_compute in map (fun e => match nth_error (summaries_fast prog) (e_fn e) with Some sm => s_writes sm | None => [] end) entries.\n")
+    res = C.coq_eval("C20", [("Gen_effects", body)], timeout=1500)[0]
+    if not res["ok"]:
+        chk.violation("proof", "generated-model-does-not-compile", "stage G: coqc failed on the generated effect model: " + res["log"][-400:], {"log": res["log"][-1500:]})
+        return
+    safe, tainted, writes = res["values"]
+    tainted_names = sorted(tr.all_globals[i] for i in tainted)
+    n_ob = sum(len(tr.params_of(tr.fns[q])) for q in ents)
+    bad = []
+    for q, ws in zip(ents, writes):
+        f = tr.fns[q]
+        ps = tr.params_of(f)
+        for i in ws:
+            if i < len(f.explicit):
+                bad.append((q, ps[i], "explicit"))
+            elif ps[i] in tainted_names:
+                bad.append((q, ps[i], "tainted"))
+    chk.extra["static"] = {"functions_translated": len(tr.order), "statements": sum(len(f.body) for f in tr.fns.values()), "entry_points": len(ents),
+                           "globals": len(tr.all_globals), "globals_that_may_hold_caller_arrays": tainted_names,
+                           "obligations (entry point x parameter: never written in place unless an attribute that never holds a caller array)": n_ob,
+                           "history_safe": bool(safe is True)}
+    if chk.proof:
+        chk.proof["obligations"] = chk.proof.get("obligations", 0) + n_ob
+        chk.proof["discharged"] = chk.proof.get("discharged", 0) + (n_ob - len(bad) if (safe is True or bad) else 0)
+    chk.count("static_entry_points", len(ents))
+    chk.count("static_obligations", n_ob)
+    if safe is True:
+        chk.count("static_history_safe")
+        return
+    if not bad:
+        chk.violation("proof", "history-safe-false", "stage G: history_safe evaluates to false on the regenerated model (ill-formed entry or taint set not closed)", {})
+    for q, p, why in bad:
+        f = tr.fns[q]
+        path = tr.explain(q, p)
+        what = (f"stage G: on the model regenerated from the source, {q} may write its argument `{p}` in place" if why == "explicit" else
+                f"stage G: {q} may write the attribute {p} in place, and that attribute may hold an array supplied by a caller")
+        chk.violation("proof", f"may-write:{q}:{p}", what + ("; " + " | ".join(x.strip() for x in path[:4]) if path else ""),
+                      {"entry": q, "parameter": p, "module": f.module, "alias_and_write_chain": path,
+                       "theorem": "C20_history_safe_sound: the obligation `history_safe prog entries nglobals = true` no longer evaluates to true"})
